@@ -17,6 +17,7 @@ import (
 	"encoding/json"
 	"fmt"
 	"math/rand"
+	"net"
 	"os"
 	"os/exec"
 	"runtime"
@@ -30,6 +31,7 @@ import (
 	"github.com/TarsCloud/TarsGo/tars/model"
 	"github.com/TarsCloud/TarsGo/tars/protocol/res/basef"
 	"github.com/TarsCloud/TarsGo/tars/protocol/res/requestf"
+	"github.com/TarsCloud/TarsGo/tars/transport"
 	"github.com/TarsCloud/TarsGo/tars/util/current"
 	"github.com/TarsCloud/TarsGo/tars/util/rtimer"
 )
@@ -48,6 +50,7 @@ type c09Obs struct {
 	Calls     []c09CallObs `json:"calls"`
 	Events    []c09Event   `json:"events"`
 	QueueLen  int32        `json:"queue_len"`
+	QueueLens []int32      `json:"queue_lens"` // queueLen of every proxy of the scenario (each must be back to 0 on its own)
 	InvokeNum int32        `json:"invoke_num"`
 	Pending   []int32      `json:"pending"`
 	Stuck     []string     `json:"stuck"`
@@ -88,6 +91,8 @@ type c09Case struct {
 	SmallBuf      bool     `json:"small_buf"`       // the peer's sockets get a tiny receive buffer: a write of some 100 KB already blocks
 	CancelMs      int      `json:"cancel_ms"`       // > 0: the caller cancels the call's context this long after it started the call
 	RejectMod     int      `json:"reject_mod"`      // n > 0: the client filter (cf / mw) rejects every call whose index is n-1 modulo n, without invoking
+	SameObject    bool     `json:"same_object"`     // the further proxies are ServantProxy objects for the SAME object (shared endpoint manager and adapters)
+	Script        string   `json:"script"`          // "" = callers as described; "stale-close" / "held-close": see c09Script
 	HandshakeMs   int      `json:"handshake_ms"`    // tls-slow: delay of the peer's side of the TLS handshake
 	IdleMs        int      `json:"idle_ms"`         // > 0: the client's idle timeout (the sender goroutine checks it once per second)
 	Gaps          []int    `json:"gaps"`            // pause after the j-th call of a caller (overrides gap_ms; the last one repeats)
@@ -227,7 +232,11 @@ func c09RunScenario(c *c09Case) *c09Obs {
 	sps := []*tars.ServantProxy{sp}
 	for i := 1; i < c.Proxies; i++ {
 		h2 := &c09Holder{}
-		comm.StringToProxy(fmt.Sprintf("VerifApp.C09Server.C09Other%d@%s -h 127.0.0.1 -p %d -t 60000", i, proto, peer.port), h2)
+		obj := fmt.Sprintf("VerifApp.C09Server.C09Other%d", i)
+		if c.SameObject {
+			obj = "VerifApp.C09Server.C09Obj" // another ServantProxy for the same object: it shares the endpoint manager and the adapters
+		}
+		comm.StringToProxy(fmt.Sprintf("%s@%s -h 127.0.0.1 -p %d -t 60000", obj, proto, peer.port), h2)
 		if sp2, ok := h2.s.(*tars.ServantProxy); ok {
 			sp2.TarsSetTimeout(c.TimeoutMs)
 			if c.Warm {
@@ -254,7 +263,9 @@ func c09RunScenario(c *c09Case) *c09Obs {
 				adps[a] = true
 			}
 			q += tars.VerifQueueLen(p)
-			n += tars.VerifInvokeNum(p)
+			if !c.SameObject || p == sps[0] { // proxies for one object share the endpoint manager and so its invokeNum
+				n += tars.VerifInvokeNum(p)
+			}
 		}
 		var ids []int32
 		for a := range adps {
@@ -263,7 +274,7 @@ func c09RunScenario(c *c09Case) *c09Obs {
 		amu.Unlock()
 		return q, n, ids
 	}
-	seq := c.Callers == 1
+	seq := c.Callers == 1 && c.Script == ""
 	var vmu sync.Mutex
 	checkSeq := func(where string, call int, q, n int32, p []int32, wantN int32) {
 		if !seq {
@@ -442,7 +453,15 @@ func c09RunScenario(c *c09Case) *c09Obs {
 		results[call] = c09CallObs{Call: call, Caller: k, ID: infos[call].id, StartMs: t0.Sub(log.t0).Milliseconds(), DurMs: dur.Milliseconds(), Out: out, Err: es}
 		rmu.Unlock()
 	}
-	for k := 0; k < c.Callers; k++ {
+	if c.Script != "" {
+		wg.Add(1)
+		go func() {
+			defer wg.Done()
+			<-start
+			c09Script(c, sps[0], peer, log, doCall)
+		}()
+	}
+	for k := 0; k < c.Callers && c.Script == ""; k++ {
 		wg.Add(1)
 		go func(k int) {
 			defer wg.Done()
@@ -553,6 +572,9 @@ func c09RunScenario(c *c09Case) *c09Obs {
 	<-sampled
 	// the counters are read immediately after the last call returned
 	obs.QueueLen, obs.InvokeNum, obs.Pending = snapshot()
+	for _, p := range sps {
+		obs.QueueLens = append(obs.QueueLens, tars.VerifQueueLen(p))
+	}
 	rmu.Lock()
 	obs.Calls = append([]c09CallObs(nil), results...)
 	rmu.Unlock()
@@ -779,6 +801,12 @@ func c09Monitors(c *c09Case) (fails []Failure, timing bool) {
 				what = append(what, "invokeNum")
 			}
 			add("not-restored/"+strings.Join(what, "+"), fmt.Sprintf("%s: after all %d calls returned: queueLen=%d pending-reply table=%v invokeNum=%d (all must be back to 0/empty)", c.Name, len(o.Calls), o.QueueLen, o.Pending, o.InvokeNum))
+		}
+	}
+	for pi, q := range o.QueueLens {
+		if q != 0 && o.QueueLen == 0 {
+			add("not-restored/queueLen-per-proxy", fmt.Sprintf("%s: after all calls returned the queueLen of proxy %d of %d is %d (the proxies' counters %v add up to 0, but each proxy must be back to 0 on its own)", c.Name, pi, len(o.QueueLens), q, o.QueueLens))
+			break
 		}
 	}
 	if len(o.SeqViol) > 0 {
@@ -1403,6 +1431,42 @@ func c09Gen(tier string, rng *rand.Rand) []c09Case {
 		c.Calls = 2
 		c.Predict = false
 		cs = append(cs, c)
+		// ---- several ServantProxy objects for ONE object (they share the endpoint manager and its adapters) with overlapping
+		// calls: every proxy's own queueLen is back to 0 (the model's counter is one proxy's: the sums are predicted)
+		c = base("same-object-proxies-overlap", "accept", rep(pick(40, 60)))
+		c.Proxies = pick(2, 3)
+		c.SameObject = true
+		c.Callers = pick(4, 6, 12)
+		c.Calls = 3
+		c.Predict = false
+		cs = append(cs, c)
+		c = base("same-object-proxies-timeouts", "accept", []c09Act{{Do: "none"}})
+		c.Proxies = 2
+		c.SameObject = true
+		c.Callers = pick(2, 4, 8)
+		c.Calls = 2
+		c.Predict = false
+		cs = append(cs, c)
+		c = base("same-object-proxies-refused", "refuse", []c09Act{{Do: "none"}})
+		c.Proxies = 2
+		c.SameObject = true
+		c.Callers = pick(2, 6)
+		c.Calls = 2
+		c.Predict = false
+		cs = append(cs, c)
+		// ---- scripted connection loss with the send goroutine held in front of its write: the close of a connection that is
+		// no longer current ("stale-close": the peer closes, the receiver marks the client closed, another call reconnects,
+		// only then the held sender writes, fails and closes its old connection), and the same with the sender released
+		// before anybody reconnects ("held-close"); further calls must return by their deadlines, nothing left behind
+		for _, sc := range []string{"stale-close", "held-close"} {
+			c = base(sc, "accept", rep(0))
+			c.Script = sc
+			c.TimeoutMs = 600
+			c.Calls = pick(5, 6)
+			c.QueueLen = 100
+			c.Predict = false
+			cs = append(cs, c)
+		}
 		// datagram transport: no connection to establish or lose
 		c = base("udp-mixed-sequential", "udp", nil)
 		T = c.TimeoutMs
@@ -1506,6 +1570,68 @@ func c09Gen(tier string, rng *rand.Rand) []c09Case {
 		}
 	}
 	return cs
+}
+
+// c09Script runs an orchestrated sequence on one proxy (calls 0 .. c.Calls-1):
+//
+//	call 0 is answered and establishes connection A; call 1's request is taken by A's send goroutine, which is held just
+//	before its write (transport.VerifC11OnWrite); the peer closes A; the client is seen marked closed;
+//	"stale-close": call 2 reconnects (B is current) and is answered, then the held sender is released: its write on A fails
+//	               and it closes A, which is not the current connection any more;
+//	"held-close":  the held sender is released first (its connection is still the current one), then call 2 reconnects;
+//	call 1 returns (its request is re-queued for the new connection), the remaining calls follow one after the other.
+func c09Script(c *c09Case, sp *tars.ServantProxy, peer *c09Peer, log *c09Log, doCall func(call, k int)) {
+	hold, held := make(chan struct{}), make(chan struct{}, 1)
+	var once sync.Once
+	tag := []byte{0xA0, 0, 0, 1} // the payload tag of call 1
+	transport.VerifC11OnWrite = func(tc *transport.TarsClient, conn net.Conn, req []byte, current bool, closedFlag bool) {
+		if bytes.Contains(req, tag) {
+			once.Do(func() {
+				held <- struct{}{}
+				select {
+				case <-hold:
+				case <-time.After(5 * time.Second):
+				}
+			})
+		}
+	}
+	defer func() { transport.VerifC11OnWrite = nil }()
+	doCall(0, 0)
+	d1 := make(chan struct{})
+	go func() { doCall(1, 0); close(d1) }()
+	select {
+	case <-held:
+	case <-time.After(3 * time.Second):
+		close(hold)
+		<-d1
+		return
+	}
+	peer.closeConns()
+	var tc *transport.TarsClient
+	if adps := tars.VerifAdapters(sp); len(adps) > 0 {
+		tc = tars.VerifTarsClient(adps[0])
+	}
+	for deadline := time.Now().Add(3 * time.Second); tc != nil && time.Now().Before(deadline); time.Sleep(200 * time.Microsecond) {
+		if closed, _ := transport.VerifC11Conn(tc); closed {
+			break
+		}
+	}
+	if c.Script == "held-close" {
+		close(hold)
+		time.Sleep(20 * time.Millisecond)
+		doCall(2, 0)
+	} else {
+		doCall(2, 0)
+		close(hold)
+	}
+	select {
+	case <-d1:
+	case <-time.After(time.Duration(c.eff()+c.DialMs+c.WriteMs+3000) * time.Millisecond):
+	}
+	for j := 3; j < c.Calls; j++ {
+		doCall(j, 0)
+		time.Sleep(10 * time.Millisecond)
+	}
 }
 
 func c09TransportRaceCase(base func(name, conn string, acts []c09Act) c09Case, pick func(l ...int) int) c09Case {
